@@ -113,6 +113,11 @@ def canon_leaf(t: Term) -> Tuple[Term, bool]:
             return t, True
         if op == "notin":
             return ("cmp", "in", a, b), False
+        if op in ("is", "isnot"):
+            # `d.get(k, SENTINEL) is SENTINEL` (a module-level marker object) is `k not in d`
+            for x, y in ((a, b), (b, a)):
+                if x[0] == "call" and x[1][0] == "attr" and x[1][2] == "get" and len(x[2]) == 2 and x[2][1] == y and y[0] == "glob":
+                    return ("cmp", "in", x[2][0], x[1][1]), op == "isnot"
         if op == "is":
             return t, True
         if op == "isnot":
@@ -139,6 +144,15 @@ def leaves(t: Term, truthy=None) -> List[Term]:
             for e in x[1]:
                 for g in e[2]:
                     walk(g[1])
+        elif x[0] == "cmp" and any(T.strip(y)[0] == "agg" and T.strip(y)[1] == "sum" and all(not e[3] for e in T.strip(y)[2][1]) for y in (x[2], x[3])) \
+                and all(T.strip(y)[0] in ("agg", "const") for y in (x[2], x[3])):
+            for y in (x[2], x[3]):
+                y = T.strip(y)
+                if y[0] == "agg":
+                    for e in y[2][1]:
+                        for g in e[2]:
+                            walk(g[1])
+                        walk(e[1])
         else:
             if truthy is not None and truthy(x) is not None:
                 return
@@ -188,6 +202,18 @@ def eval_leaves(t: Term, assign: Dict[Term, bool], truthy=None) -> bool:
         v = truthy(t)
         if v is not None:
             return v
+    if k == "cmp" and t[1] in ("<", "<=", "==", "!="):
+        # counting conditions: sum(<boolean> for ...) compared with a number
+        def num(x):
+            x = T.strip(x)
+            if x[0] == "const" and isinstance(x[1], int) and not isinstance(x[1], bool):
+                return x[1]
+            if x[0] == "agg" and x[1] == "sum" and not x[3] and all(not e[3] for e in x[2][1]):
+                return sum(1 for e in x[2][1] if all(eval_leaves(g[1], assign, truthy) == g[2] for g in e[2]) and eval_leaves(e[1], assign, truthy))
+            return None
+        na, nb = num(t[2]), num(t[3])
+        if na is not None and nb is not None and (T.strip(t[2])[0] == "agg" or T.strip(t[3])[0] == "agg"):
+            return {"<": na < nb, "<=": na <= nb, "==": na == nb, "!=": na != nb}[t[1]]
     l, p = canon_leaf(t)
     if l not in assign:
         raise NotBoolean(T.show(t))
